@@ -245,6 +245,91 @@ def gen_call(rng, grp):
     return None
 
 
+def _other(rng, pool, cur):
+    xs = [x for x in pool if x != cur]
+    return rng.choice(xs) if xs else cur
+
+
+def near_call(rng, call):
+    """A call that differs from `call` in ONE argument, staying in the same class (another tabulated event
+    for a tabulated one, another interpolated distance for an interpolated one, another age, the other
+    gender, another mark, another validator for the same schema ...).  Neighbouring calls share the same
+    table rows, memo buckets and cache lines far more often than independent random ones."""
+    r = rng
+    f = call['f']; a = list(call['a']); k = dict(call['k'])
+    try:
+        if f in ('wma_age_factor', 'wma_age_grade', 'wma_athlon_age_factor', 'wma_athlon_age_grade'):
+            x = r.random()
+            if x < 0.55:
+                ev = a[2]
+                pool = AAG_EVENTS if 'athlon' in f else (WMA_INTERP if ev in WMA_INTERP or ev not in WMA_EVENTS else WMA_EVENTS)
+                a[2] = _other(r, pool, ev)
+            elif x < 0.8:
+                a[1] = r.choice([r.randint(30, 100), a[1] + r.choice([-7, -1, 1, 5]) if isinstance(a[1], int) else 50])
+            else:
+                a[0] = {'m': 'f', 'f': 'm', 'M': 'F', 'F': 'M'}.get(a[0], 'm')
+        elif f == 'wma_world_best':
+            if r.random() < 0.7:
+                ev = a[1]
+                a[1] = _other(r, WMA_INTERP if ev in WMA_INTERP or ev not in WMA_EVENTS else WMA_EVENTS, ev)
+            else:
+                a[0] = {'m': 'f', 'f': 'm'}.get(a[0], 'm')
+        elif f == 'athlon_score':
+            x = r.random()
+            if x < 0.4:
+                a[1] = _other(r, ATHLON_EVENTS, a[1])
+            elif x < 0.7:
+                a[2] = round(r.uniform(1.0, 300.0), 2)
+            elif x < 0.85:
+                a[0] = 'F' if a[0] == 'M' else 'M'
+            else:
+                k['age'] = r.choice([35, 47, 55, 63, 70])
+        elif f == 'athlon_performance_needed':
+            if r.random() < 0.5:
+                a[1] = _other(r, ATHLON_EVENTS, a[1])
+            else:
+                a[2] = r.choice([0, 400, 750, 1000, 1250])
+        elif f == 'hungarian_score':
+            x = r.random()
+            if x < 0.5:
+                a[2] = _other(r, HUN_EVENTS, a[2])
+            elif x < 0.8:
+                a[3] = round(r.uniform(1.0, 9000.0), 2)
+            else:
+                a[0] = _other(r, ['M', 'F'], a[0])
+        elif f == 'sportshall_score':
+            if r.random() < 0.5:
+                a[0] = _other(r, SH_EVENTS, str(a[0]).upper())
+            else:
+                a[1] = numeric_arg(r, 0.3, 300.0)
+        elif f == 'utils.schema_valid':
+            x = r.random()
+            if x < 0.4:
+                v = r.choice(VALIDATORS)
+                k.pop('validator', None)
+                if v != 'Draft3Validator':
+                    k['validator'] = V(v)
+            elif x < 0.7:
+                a[0] = _other(r, SCHEMAS, a[0])
+            else:
+                if k.pop('expect_failure', None) is None:
+                    k['expect_failure'] = True
+        elif f == 'utils.valid_against_schema':
+            x = r.random()
+            if x < 0.4:
+                a[0] = _other(r, ALL_DOCS, a[0])
+            elif x < 0.7:
+                a[1] = _other(r, SCHEMAS[:7], a[1])
+            else:
+                if k.pop('expect_failure', None) is None:
+                    k['expect_failure'] = True
+        else:
+            return None
+    except Exception:
+        return None
+    return {'f': f, 'a': a, 'k': k}
+
+
 def pick_call(rng, grp):
     if rng.random() < 0.5:
         g = gen_call(rng, grp)
@@ -398,8 +483,11 @@ def gen_scenario(rng):
     if scn['variant'] != 'first' and rng.random() < 0.5:
         groups = sorted(set(g for g in [scn['group']] if g in CATALOGUE)) or \
             sorted(set(gg for gg, _ in DEFAULT_GROUP_WEIGHTS))
-        extra = [pick_call(rng, rng.choice(groups)) for _ in range(rng.randint(1, 6))]
         mine = [cl for p in scn['programs'] for cl in p]
+        extra = []
+        for _ in range(rng.randint(1, 6)):
+            nc = near_call(rng, rng.choice(mine)) if (mine and rng.random() < 0.6) else None
+            extra.append(nc or pick_call(rng, rng.choice(groups)))
         if mine and rng.random() < 0.7:
             extra.append(rng.choice(mine))
         scn['warm_extra'] = extra
@@ -429,6 +517,8 @@ def _gen_scenario(rng):
                 prog.append(base_call)
             elif earlier and rng.random() < 0.2:
                 prog.append(rng.choice(earlier))        # same arguments again (same cache key, same table row)
+            elif earlier and rng.random() < 0.4 and near_call(rng, earlier[-1]) is not None:
+                prog.append(near_call(rng, rng.choice(earlier)) or pick_call(rng, grp))   # one argument changed
             else:
                 g = weighted(rng, GROUP_WEIGHTS) if mixed else grp
                 prog.append(pick_call(rng, g))
